@@ -5,6 +5,7 @@ import (
 	"go/ast"
 	"go/token"
 	"go/types"
+	"strings"
 
 	"bmverif/internal/core"
 	"golang.org/x/tools/go/packages"
@@ -14,7 +15,7 @@ func init() {
 	register("C02", checkC02)
 	describe("C02", Meta{
 		Technique: "index-space (units-of-measure) inference over the type-checked AST: every int used to index the bond tables, stored into Links or compared is given the index space of its definition (range key/value, len, lookup, Map_to-guarded Res_id/Ext_id) and must agree with the space the container is declared to use",
-		Claim:     "Decides one structural clause of C02: both back-ends (VM.Step and the Verilog top-level generator) and every helper that walks Links / Internal_inputs / Internal_outputs use internal-input indices, internal-output indices, external-port indices and processor indices only in the tables of the matching space, and a Map_to case names an endpoint kind that can occur in the list being walked. A swapped Links index or a transfer guarded by the wrong endpoint kind is reported. FANIN: a walk that enumerates the inputs bonded to an output (`linked == o`) treats every such input alike (no filter on the machine's content), in the HDL generator as in the simulator — the structural form of 'received is the conjunction over ALL consumers'. LINKWALK: for every per-endpoint table the VM fills while ranging over Links, at least one walk moves every link (conditions on the link only), as the generated top level does with one assign per bond. Stream equality HDL vs. simulator, timing and the AND of received lines are not decided.",
+		Claim:     "Decides one structural clause of C02: both back-ends (VM.Step and the Verilog top-level generator) and every helper that walks Links / Internal_inputs / Internal_outputs use internal-input indices, internal-output indices, external-port indices and processor indices only in the tables of the matching space, and a Map_to case names an endpoint kind that can occur in the list being walked. A swapped Links index or a transfer guarded by the wrong endpoint kind is reported. PORTORDER: the positional connections of a processor instance are emitted by a counted loop over the port number, as the architecture module's header is. FANIN: a walk that enumerates the inputs bonded to an output (`linked == o`) treats every such input alike (no filter on the machine's content), in the HDL generator as in the simulator — the structural form of 'received is the conjunction over ALL consumers'. LINKWALK: for every per-endpoint table the VM fills while ranging over Links, at least one walk moves every link (conditions on the link only), as the generated top level does with one assign per bond. Stream equality HDL vs. simulator, timing and the AND of received lines are not decided.",
 		Note:      "Index spaces are declared per struct field in the checker (read off the data model's own comments); locals with two different definitions are ignored (no obligation). Flow-insensitive per function.",
 		DesignRef: "DESIGN.md §2 C02",
 	})
@@ -37,6 +38,111 @@ func checkC02(r *core.Run) {
 	})
 	c02LinkWalk(r, prog)
 	c02FanIn(r, prog)
+	c02PortOrder(r, prog)
+}
+
+// c02PortOrder (C02/PORTORDER): the architecture module lists a processor's input ports, then its
+// output ports, by ascending port number (Arch.Write_verilog: counted loops over N and M), and the top
+// level connects an instance BY POSITION. So the code of Write_verilog_main that emits an instance's
+// `<wire>, <wire>_valid, <wire>_received` triples must run inside a counted loop over the processor's
+// port count (j < N, j < M), and not inside a loop over a list of names or a map — a list of names
+// sorted as strings puts i10 before i2, and from eleven ports on every later bond lands on another port.
+func c02PortOrder(r *core.Run, prog *core.Program) {
+	pk := prog.Pkg("pkg/bondmachine")
+	if pk == nil {
+		return
+	}
+	info := pk.TypesInfo
+	n := 0
+	core.FuncDecls(pk, func(_ *ast.File, fd *ast.FuncDecl) {
+		if fd.Name.Name != "Write_verilog_main" {
+			return
+		}
+		parents := map[ast.Node]ast.Node{}
+		var stack []ast.Node
+		ast.Inspect(fd.Body, func(m ast.Node) bool {
+			if m == nil {
+				stack = stack[:len(stack)-1]
+				return true
+			}
+			if len(stack) > 0 {
+				parents[m] = stack[len(stack)-1]
+			}
+			stack = append(stack, m)
+			return true
+		})
+		k := 0
+		ast.Inspect(fd.Body, func(m ast.Node) bool {
+			as, ok := m.(*ast.AssignStmt)
+			if !ok || len(as.Rhs) != 1 {
+				return true
+			}
+			var leaves []ast.Expr
+			flattenAdd(as.Rhs[0], &leaves)
+			triple := false
+			for _, l := range leaves {
+				if sl, ok := constStr(info, l); ok && strings.Contains(sl, "_valid, ") {
+					triple = true
+				}
+			}
+			if !triple {
+				return true
+			}
+			k++
+			n++
+			inst := fmt.Sprintf("C02/PORTORDER:%s:emit%d", core.FuncKey(pk, fd), k)
+			counted, named := false, ""
+			for p := parents[ast.Node(as)]; p != nil; p = parents[p] {
+				switch x := p.(type) {
+				case *ast.ForStmt:
+					if be, ok := x.Cond.(*ast.BinaryExpr); ok && (be.Op == token.LSS || be.Op == token.LEQ) {
+						ast.Inspect(be.Y, func(q ast.Node) bool {
+							if sel, ok := q.(*ast.SelectorExpr); ok {
+								if f := core.FieldOf(info, sel); f != nil && (f.Name() == "N" || f.Name() == "M") {
+									counted = true
+								}
+							}
+							return true
+						})
+					}
+				case *ast.RangeStmt:
+					t := info.TypeOf(x.X)
+					if t == nil {
+						continue
+					}
+					switch u := t.Underlying().(type) {
+					case *types.Map:
+						named = "a map (" + types.ExprString(x.X) + ")"
+					case *types.Slice:
+						if b, ok := u.Elem().Underlying().(*types.Basic); ok && b.Info()&types.IsString != 0 {
+							named = "a list of names (" + types.ExprString(x.X) + ")"
+						}
+					case *types.Basic:
+						if u.Info()&types.IsInteger != 0 {
+							ast.Inspect(x.X, func(q ast.Node) bool {
+								if sel, ok := q.(*ast.SelectorExpr); ok {
+									if f := core.FieldOf(info, sel); f != nil && (f.Name() == "N" || f.Name() == "M") {
+										counted = true
+									}
+								}
+								return true
+							})
+						}
+					}
+				}
+			}
+			switch {
+			case named != "":
+				r.Violation("C02/PORTORDER", inst, prog.Pos(as.Pos()), fmt.Sprintf("%s emits the positional connections of a processor instance while ranging over %s: the architecture module declares its ports by ascending port number, so the instance is wired in another order whenever that order differs (names sorted as strings put i10 before i2) — the generated top level then implements another bond graph than the one the simulator runs", core.FuncKey(pk, fd), named))
+			case !counted:
+				r.Violation("C02/PORTORDER", inst, prog.Pos(as.Pos()), fmt.Sprintf("%s emits the positional connections of a processor instance outside a counted loop over the processor's port count (j < N / j < M): nothing ties their order to the port order of the architecture module", core.FuncKey(pk, fd)))
+			default:
+				r.OK("C02/PORTORDER", inst, prog.Pos(as.Pos()), "instance connections are emitted by a counted loop over the port number")
+			}
+			return true
+		})
+	})
+	r.Count("instance_connection_emissions", n)
 }
 
 // c02FanIn (C02/FANIN): "an output's received line is the conjunction of the received lines of ALL
